@@ -43,12 +43,13 @@ def plan(tier, seed, batch):
 SWEEP_TASKS = 36
 
 
-def rule_sweep_blocks(k):
+def rule_sweep_blocks(k, near=False):
     """Deterministic sweep over the rule-bait patterns (work/blocks.BAIT): every pattern instantiated on stack inputs,
     once with the operands duplicated (X stays alive) and once consumed, so that each rule family is exercised in every run
     of the check instead of by the luck of the block grammar."""
     import random
-    pats = B.BAIT
+    # near=True (C01): also the near misses of the two-term rules; C05 and C10 sweep the rule patterns proper
+    pats = B.BAIT + (B.BAIT_NEAR if near else [])
     per = (len(pats) + SWEEP_TASKS - 1) // SWEEP_TASKS
     out = []
     for pi in range(k * per, min(len(pats), (k + 1) * per)):
@@ -154,7 +155,7 @@ def build_op(spec):
         op["desc"] = {"split": "none", "crit": "gas", "rules": True, "push0": "-push0" not in flags, "backend": "-greedy"}
         return op
     if spec["index"] < SWEEP_TASKS:
-        bl = rule_sweep_blocks(spec["index"])
+        bl = rule_sweep_blocks(spec["index"], near=True)
         if not bl:
             return C.build_pipe_op(spec)
         flags = [[], ["-size"], ["-length"], ["-push0"]][spec["index"] % 4] + ["-greedy"]
